@@ -97,7 +97,19 @@ package tds
 
 //@ # ---------------------------------------------------------------------
 //@ # C07: every parser reports a dry stream as ErrNotEnoughBytes
+//@ # Package typestates: $ready = ReadFrom may be called (set by LookupPackage, or by a
+//@ # successful LastPkg for packages that need the preceding format); $parsed = the last
+//@ # ReadFrom on this object succeeded.
+//@ ghost field Package.$ready bool
+//@ ghost field Package.$parsed bool
+//@ paraminv Package [no-typed-nil] tag(this) == 0 || payload(this) != 0
 //@ interface Package.ReadFrom params (ch) returns (err)
+//@   requires [ready] this.$ready
+//@   requires [fresh-object] !this.$parsed
+//@   modifies this.$parsed
+//@   ghost-update at entry: this.$parsed := false
+//@   ghost-update at exit: this.$parsed := err == nil
+//@   ensures [parsed] this.$parsed == (err == nil)
 //@   modifies ch.$r, ch.$dry
 //@   ensures [neb-on-dry] ch.$dry && !old(ch.$dry) ==> err != nil && neb(err)
 //@   ensures [ok-not-dry] err == nil ==> ch.$dry == old(ch.$dry)
@@ -110,6 +122,7 @@ package tds
 //@   ensures [chwf] chwf(ch)
 //@ interface FieldData.ReadFrom params (ch) returns (n, err)
 //@   requires [ready] this.$fdready
+//@   modifies this.*
 //@   modifies ch.$r, ch.$dry
 //@   ensures [neb-on-dry] ch.$dry && !old(ch.$dry) ==> err != nil && neb(err)
 //@   ensures [ok-not-dry] err == nil ==> ch.$dry == old(ch.$dry)
@@ -117,6 +130,7 @@ package tds
 
 //@ # helpers that take a BytesChannel obey the same clause
 //@ func (*fieldDataBase).readFrom like FieldData.ReadFrom
+//@   ensures [decimal-nonnil] err == nil && is(this.value, *asetypes.Decimal) ==> payload(this.value) != 0
 //@ func (*fieldData).ReadFrom like FieldData.ReadFrom
 
 //@ # ---------------------------------------------------------------------
@@ -131,7 +145,7 @@ package tds
 //@   modifies field.dataType, field.$dt
 //@   ghost-update at exit: field.$dt := t
 //@ interface FieldFmt.SetDataType params (t)
-//@   modifies this.$dt, all fieldFmtBase.dataType
+//@   modifies this.*, this.$dt
 //@   ensures this.$dt == t
 //@ interface FieldFmt.DataType returns (r)
 //@   modifies
@@ -162,7 +176,7 @@ package tds
 //@   ghost-update at exit: field.$fdready := true
 //@ interface FieldData.setFormat params (f)
 //@   requires [nonnil] nonnil(f)
-//@   modifies this.$fdready, all fieldDataBase.fmt
+//@   modifies this.*, this.$fdready
 //@   ensures this.$fdready
 //@ interface FieldData.Format returns (r)
 //@   modifies
@@ -177,3 +191,96 @@ package tds
 //@   modifies
 //@   ensures [nonnil] err == nil ==> nonnil(f) && f.$dt == dataType
 //@   ensures [fresh] err == nil ==> fresh(f)
+
+//@ # ---------------------------------------------------------------------
+//@ # Structural invariants of packages (established by constructors / LastPkg)
+//@ typeinv TokenlessPackage { [data] this.Data != nil }
+//@ typeinv CapabilityPackage { [caps] this.Capabilities != nil }
+//@ typeinv ParamFmtPackage { [fmts] this.$parsed ==> (forall i int :: 0 <= i && i < len(this.Fmts) ==> nonnil(this.Fmts[i])) }
+//@ typeinv RowFmtPackage { [fmts] this.$parsed ==> (forall i int :: 0 <= i && i < len(this.Fmts) ==> nonnil(this.Fmts[i])) }
+//@ typeinv ParamsPackage { [pf] this.paramFmt != nil ==> this.paramFmt.$parsed }
+//@ typeinv ParamsPackage { [rf] this.rowFmt != nil ==> this.rowFmt.$parsed }
+//@ typeinv OrderByPackage { [rf] this.rowFmt != nil ==> this.rowFmt.$parsed }
+//@ typeinv ParamsPackage { [fields] this.$ready ==> (forall i int :: 0 <= i && i < len(this.DataFields) ==> nonnil(this.DataFields[i]) && this.DataFields[i].$fdready) }
+
+//@ interface LastPkgAcceptor.LastPkg params (other) returns (err)
+//@   requires [parsed] tag(other) != 0 ==> other.$parsed
+//@   modifies this.*, this.$ready, all elems tds.FieldData
+//@   ghost-update at exit: this.$ready := err == nil
+//@   ensures [ready] err == nil ==> this.$ready
+
+//@ func (*ParamsPackage).LastPkg returns (err)
+//@   requires [impl:client-filled] pkg.DataFields != nil ==> pkg.$ready
+//@   loop 0:
+//@     invariant 0 <= rangeindex + 1 && rangeindex < len(fieldFmts) && len(pkg.DataFields) == len(fieldFmts)
+//@     invariant forall j int :: 0 <= j && j <= rangeindex ==> nonnil(pkg.DataFields[j]) && pkg.DataFields[j].$fdready && allocated(pkg.DataFields[j])
+//@     invariant forall j int :: 0 <= j && j < len(fieldFmts) ==> nonnil(fieldFmts[j])
+//@     invariant fresh(pkg.DataFields)
+
+//@ func (*ParamFmtPackage).ReadFrom
+//@   loop 0:
+//@     invariant 0 <= i && i <= int(paramsCount) && len(pkg.Fmts) == int(paramsCount) && fresh(pkg.Fmts)
+//@     invariant forall j int :: 0 <= j && j < i ==> nonnil(pkg.Fmts[j])
+//@     invariant chwf(ch) && ch.$dry == old(ch.$dry) && nonnil(ch)
+//@ func (*RowFmtPackage).ReadFrom
+//@   loop 0:
+//@     invariant 0 <= i && i <= int(colCount) && len(pkg.Fmts) == int(colCount) && fresh(pkg.Fmts)
+//@     invariant forall j int :: 0 <= j && j < i ==> nonnil(pkg.Fmts[j])
+//@     invariant chwf(ch) && ch.$dry == old(ch.$dry) && nonnil(ch)
+
+//@ func (*fieldDataBase).readFromStatus returns (n, err)
+//@   requires [ready] field.$fdready
+//@   requires [ch] nonnil(ch) && chwf(ch)
+//@   modifies field.status, ch.$r, ch.$dry
+//@   ensures [neb-on-dry] ch.$dry && !old(ch.$dry) ==> err != nil && neb(err)
+//@   ensures [ok-not-dry] err == nil ==> ch.$dry == old(ch.$dry)
+//@   ensures [chwf] chwf(ch)
+
+//@ pred needsLastPkg(p Package) { is(p, *ParamsPackage) || is(p, *RowPackage) || is(p, *OrderByPackage) || is(p, *OrderBy2Package) }
+//@ func LookupPackage returns (pkg, err)
+//@   modifies
+//@   ghost-update at exit: pkg.$ready := !needsLastPkg(pkg)
+//@   ensures [nonnil] err == nil ==> nonnil(pkg) && fresh(pkg)
+//@   ensures [ready] err == nil && !needsLastPkg(pkg) ==> pkg.$ready
+//@   ensures [params-empty] err == nil && is(pkg, *ParamsPackage) ==> as(pkg, *ParamsPackage).DataFields == nil
+//@   ensures [row-empty] err == nil && is(pkg, *RowPackage) ==> as(pkg, *RowPackage).DataFields == nil
+
+//@ # FieldFmt setters touch only the object itself; getters touch nothing
+//@ interface FieldFmt.SetName params (v)
+//@   modifies this.*
+//@ interface FieldFmt.SetColumnLabel params (v)
+//@   modifies this.*
+//@ interface FieldFmt.SetCatalogue params (v)
+//@   modifies this.*
+//@ interface FieldFmt.SetSchema params (v)
+//@   modifies this.*
+//@ interface FieldFmt.SetTable params (v)
+//@   modifies this.*
+//@ interface FieldFmt.SetStatus params (v)
+//@   modifies this.*
+//@ interface FieldFmt.SetUserType params (v)
+//@   modifies this.*
+//@ interface FieldFmt.SetLocaleInfo params (v)
+//@   modifies this.*
+//@ interface FieldFmt.setMaxLength params (v)
+//@   modifies this.*
+//@ interface FieldFmt.setDisplayMaxLength params (v)
+//@   modifies this.*
+//@ interface FieldFmt.ColumnLabel returns (r)
+//@   modifies
+//@ interface FieldFmt.Catalogue returns (r)
+//@   modifies
+//@ interface FieldFmt.Schema returns (r)
+//@   modifies
+//@ interface FieldFmt.Table returns (r)
+//@   modifies
+//@ interface FieldFmt.UserType returns (r)
+//@   modifies
+//@ interface FieldFmt.DisplayMaxLength returns (r)
+//@   modifies
+//@ interface FieldData.Status returns (r)
+//@   modifies
+//@ interface FieldData.Value returns (r)
+//@   modifies
+//@ interface FieldData.SetValue params (v)
+//@   modifies this.*
